@@ -8,6 +8,10 @@ Unannotated stretch at 8000 (both chromosomes).  Structures (each with a coverag
  X1 K1 with one junction displaced by 3 bp (bulge)      X2 K1 with a short spurious terminal exon (tip)
  M1 mono-exonic polyA reads in the unannotated stretch  A1 antisense copy of N2 (reads flagged reverse, polyT head)
  G1 spliced reads of an unannotated gene at 8000        S1 two alternative polyA sites of N1 (same chain, ends 300 bp apart)
+ Y0 full-length reads of TA (gene G11: TA = exons 1-5, TB = exons 1,3,5)
+ Y1 reads over G11 exons 1,2',3,5 where 2' starts 12 bp upstream of the annotated acceptor (more than delta, less than the
+    intron-graph clustering distance: next to a few Y0 reads the annotated intron is collapsed into the novel one; all other
+    introns of the chain are annotated)                                                                                         -> .nnic
 """
 import itertools
 import os
@@ -15,7 +19,9 @@ import shutil
 
 from vlib import worlds as W
 
-STRUCTS = ["K1", "K2", "K4", "P1", "Q1", "N1", "N2", "N3", "X1", "X2", "M1", "A1", "G1", "S1", "V1", "W1", "V2", "H1", "H2"]
+STRUCTS = ["K1", "K2", "K4", "P1", "Q1", "N1", "N2", "N3", "X1", "X2", "M1", "A1", "G1", "S1", "V1", "W1", "V2", "H1", "H2", "Y0", "Y1"]
+# gene G11 (chr2, +): TA = 5 exons, TB = exons 1,3,5
+G11_EXONS = [[3201, 3350], [3501, 3650], [3801, 3950], [4101, 4250], [4401, 4550]]
 # gene G6: 8 exons of 150 bp, a 1-kb middle intron; its 5' half and 3' half can be covered by disjoint read clusters
 G6_EXONS = [[4601, 4750], [4901, 5050], [5201, 5350], [5501, 5650], [6701, 6850], [7001, 7150], [7301, 7450], [7601, 7750]]
 G5_EXONS = [[9001, 9300], [9801, 10000], [10601, 10800], [11401, 11700], [12501, 13000]]     # long last exon (500 bp)
@@ -73,6 +79,10 @@ def structure_reads(struct, level, tag):
             reads.append(W.read_of(nm, "chr1", [G6_EXONS[i] for i in (0, 2, 3)]))
         elif struct == "H2":       # novel exon-skipping isoform in the 3' half of G6 (exons 5,7,8)
             reads.append(W.read_of(nm, "chr1", [G6_EXONS[i] for i in (4, 6, 7)]))
+        elif struct == "Y0":
+            reads.append(W.read_of(nm, "chr2", G11_EXONS))
+        elif struct == "Y1":
+            reads.append(W.read_of(nm, "chr2", [G11_EXONS[0], [G11_EXONS[1][0] - 12, G11_EXONS[1][1]], G11_EXONS[2], G11_EXONS[4]]))
         elif struct == "S1":
             b = E([0, 1, 2, 4])
             if k % 2:
@@ -89,7 +99,16 @@ def make_world(scenario, annotated=True):
     g2 = W.locus_gene("G2", "chr2", "-", 1000, {"T4": [0, 1, 2, 3]})
     g5 = {"id": "G5", "chr": "chr1", "strand": "+", "transcripts": [{"id": "T7", "exons": [list(e) for e in G5_EXONS]}]}
     g6 = {"id": "G6", "chr": "chr1", "strand": "+", "transcripts": [{"id": "T8", "exons": [list(e) for e in G6_EXONS]}]}
-    w["genes"] = [g1, g2, g5, g6]
+    # reference-only genes with boundary shapes: 1-bp internal and terminal exons (closed GTF coordinates: start == end is a valid exon),
+    # a transcript starting at position 1 and one ending at the last base of the chromosome; no read maps to them
+    g8 = {"id": "G8", "chr": "chr2", "strand": "+", "transcripts": [
+        {"id": "T9", "exons": [[5001, 5200], [5401, 5401], [5601, 5800], [6001, 6001]]},
+        {"id": "T10", "exons": [[5001, 5200], [5601, 5800], [6201, 6202]]}]}
+    g9 = {"id": "G9", "chr": "chr2", "strand": "-", "transcripts": [{"id": "T11", "exons": [[1, 120], [301, 500]]}]}
+    g10 = {"id": "G10", "chr": "chr2", "strand": "+", "transcripts": [{"id": "T12", "exons": [[10401, 10600], [10801, 11000]]}]}
+    g11 = {"id": "G11", "chr": "chr2", "strand": "+", "transcripts": [{"id": "TA", "exons": [list(e) for e in G11_EXONS]},
+                                                                       {"id": "TB", "exons": [list(G11_EXONS[i]) for i in (0, 2, 4)]}]}
+    w["genes"] = [g1, g2, g5, g6, g8, g9, g10, g11]
     if annotated == 2:
         # the reference is itself an IsoQuant output: ids in IsoQuant's style with consecutive numbers on one chromosome
         ren = {"T2": "transcript1.chr1.nic", "T7": "transcript2.chr1.nnic", "T8": "transcript3.chr1.nnic", "T4": "transcript1.chr2.nnic"}
@@ -104,6 +123,7 @@ def make_world(scenario, annotated=True):
     W.add_sites_for_blocks(w, "chr1", [slot(i) for i in (0, 1, 2, 3, 4, 5)], "+")
     W.add_sites_for_blocks(w, "chr1", [slot(1), [1941, 2060], slot(2)], "nc")
     W.add_sites_for_blocks(w, "chr1", [[501, 525], slot(0)], "+")
+    W.add_sites_for_blocks(w, "chr2", [G11_EXONS[0], [G11_EXONS[1][0] - 12, G11_EXONS[1][1]]], "+")
     W.add_sites_for_blocks(w, "chr2", [W.slot(8000, 0), W.slot(8000, 1), W.slot(8000, 2)], "+")
     W.add_sites_for_blocks(w, "chr1", [G5_EXONS[i] for i in (0, 1, 3, 4)], "+")
     W.add_sites_for_blocks(w, "chr1", [G6_EXONS[i] for i in (0, 2, 3)], "+")
